@@ -37,6 +37,26 @@ class Family:
         return SR(self.f[i](*a))
 
 
+class GradFamily(Family):
+    """Helmholtz family for the Maxwell magnetic-field operator and the Maxwell potentials: the dense code calls the
+    single-layer kernel for G0 and forms the gradient INLINE as G0 (ik r - 1)/r^2 (x - y); the family therefore keeps G0
+    uninterpreted and DEFINES G1..G3 by that formula (r = the sqrt atom of |x - y|^2, shared with the dense code). That the
+    real fmm/helpers.helmholtz_kernel satisfies the same relation for every complex k is the lemma group 'lemma/helmholtz/grad'."""
+
+    def __init__(self, name, k):
+        Family.__init__(self, name, True)
+        self.k = complex(k)
+
+    def val(self, i, x, y):
+        g0 = Family.val(self, 0, x, y)
+        if i == 0:
+            return g0
+        diff = [SR.lift(a) - SR.lift(c) for a, c in zip(x, y)]
+        d2 = diff[0] * diff[0] + diff[1] * diff[1] + diff[2] * diff[2]
+        r = d2.sqrt()
+        return g0 * (SC.lift(1j * self.k) * r - 1) / (r * r) * diff[i - 1]
+
+
 def same(p, q):
     return all(z3.simplify(term(a) - term(c)).eq(z3.RealVal(0)) for a, c in zip(p, q))
 
@@ -159,6 +179,17 @@ def boundary_cfgs(thorough):
         # hypersingular / Maxwell on segment spaces (curl, RWG and divergence point maps of restricted spaces)
         ("laplace", "hypersingular", "T9", ("P", 1, seg([1, 2], include_boundary_dofs=True)), ("P", 1, seg([1, 2], include_boundary_dofs=True)), 1, False),
     ]
+    # Maxwell magnetic field (gradient family; see GradFamily): two different grids (pure far field), and one grid whose element
+    # pairs are all adjacent (the near-field correction must cancel the whole far field and leave the singular part)
+    rb = ("RWG", 0, {"include_boundary_dofs": True})
+    sb = ("SNC", 0, {"include_boundary_dofs": True})
+    out += [("helmholtz", "magnetic_field", ("T2", "T1"), rb, sb, 1, False), ("helmholtz", "magnetic_field", "T2", rb, sb, 1, True)]
+    if thorough:
+        out += [
+            ("helmholtz", "magnetic_field", ("T2", "T2"), rb, sb, 2, True),
+            ("helmholtz", "magnetic_field", "T9", ("RWG", 0, seg([1, 2], include_boundary_dofs=True)), ("RWG", 0, seg([0, 1], include_boundary_dofs=True)), 1, False),
+            ("helmholtz", "magnetic_field", "T4", ("RWG", 0, {}), ("SNC", 0, {}), 1, False),
+        ]
     if thorough:
         out += [
             ("helmholtz", "hypersingular", "T4", ("P", 1, {}), ("P", 1, {}), 2, True),
@@ -189,11 +220,11 @@ def run(ctx):
     ctx.bound("meshes", "T2/T4/T5/T7/T9 (<=6 elements); + T6 thorough")
     ctx.bound("quadrature orders", "regular 1..2 (set globally, as the property states), singular 1")
     ctx.out("reproduction of the recorded reference vectors (needs the real exafmm library)")
-    ctx.out("Maxwell magnetic-field operator and Maxwell potentials (the dense path recomputes the gradient from G0; relation needs the concrete kernel)")
     ctx.stub("exafmm package -> exact summation of the uninterpreted kernel family over the same point sources, zero for coincident points")
     ctx.stub("fmm/helpers.{laplace,helmholtz,modified_helmholtz}_kernel -> same family (near-field correction), zero for coincident points")
     fams = {m: Family("G" + m[0], MODES[m][1]) for m in MODES}
-    pkg = fake_exafmm(fams)
+    fam_by_mode = dict(fams)  # what the fake exafmm sums: the plain family, or the gradient family for the Maxwell curl operators
+    pkg = fake_exafmm(fam_by_mode)
     saved = {n: sys.modules.get(n) for n in ("exafmm", "exafmm.laplace", "exafmm.helmholtz", "exafmm.modified_helmholtz")}
     sys.modules["exafmm"] = pkg
     for sub in ("laplace", "helmholtz", "modified_helmholtz"):
@@ -204,6 +235,9 @@ def run(ctx):
             ABS.reset()
             fa.clear_fmm_cache()
             fam = fams[mode]
+            if op == "magnetic_field":
+                fam = GradFamily("Gm", MODES[mode][2][0])
+            fam_by_mode[mode] = fam
             if isinstance(mesh, tuple):
                 g = W.symgrid(mesh[0], tag="f%d" % ci)
                 g2 = W.symgrid(mesh[1], tag="h%d" % ci)
@@ -222,8 +256,8 @@ def run(ctx):
             with W.patched(*tr):
                 dom = b.function_space(g, trial[0], trial[1], **trial[2])
                 dual = b.function_space(g2, test[0], test[1], **test[2])
-                if op == "electric_field":
-                    mk = lambda a: b.operators.boundary.maxwell.electric_field(dom, dom, dual, *args, assembler=a)
+                if op in ("electric_field", "magnetic_field"):
+                    mk = lambda a: getattr(b.operators.boundary.maxwell, op)(dom, dom, dual, *args, assembler=a)
                 else:
                     mk = lambda a: getattr(getattr(b.operators.boundary, mode), op)(dom, dual, dual, *args, assembler=a)
                 Ad = mk("default_nonlocal").weak_form().to_dense()
@@ -248,7 +282,7 @@ def run(ctx):
             if ci == 0:
                 ctx.twin("twin/fmm-without-one-source", eq_formula(yf[0], yd[0] + x[0] * fam.val(0, list(g.data().vertices[:, 0]), list(g.data().vertices[:, 5]))), [], abs_cons=False)
             ctx.sample({"config": params, "rows": n, "encode_s": round(time.time() - t0, 2)})
-            if ctx.thorough or ci in (2, 4, 6, 8):
+            if ctx.thorough or ci in (2, 4, 6, 8, 9, 10):
                 ctx.concrete("fmm_vs_dense/%d" % ci, "fmm_vs_dense", params)
             ctx.log("bnd%d %s %s %s: %d rows %.1fs" % (ci, mode, op, mesh, n, time.time() - t0))
 
@@ -256,11 +290,20 @@ def run(ctx):
         pot_cfgs = [("laplace", "single_layer", "T2", ("DP", 0, {}), 2), ("helmholtz", "double_layer", "T2", ("P", 1, {"include_boundary_dofs": True}), 1)]
         if ctx.thorough:
             pot_cfgs += [("modified_helmholtz", "double_layer", "T5", ("P", 1, {"include_boundary_dofs": True}), 2), ("helmholtz", "single_layer", "T4", ("DP", 1, {"segments": [1]}), 1)]
+        pot_cfgs += [("helmholtz", "maxwell.magnetic_field", "T2", ("RWG", 0, {"include_boundary_dofs": True}), 1)]
+        if ctx.thorough:
+            pot_cfgs += [("helmholtz", "maxwell.electric_field", "T2", ("RWG", 0, {"include_boundary_dofs": True}), 1),
+                         ("helmholtz", "maxwell.magnetic_field", "T9", ("RWG", 0, {"segments": [1, 2], "include_boundary_dofs": True}), 2)]
+        if os.environ.get("VF_C17_ONLY"):
+            pot_cfgs = [c for c in pot_cfgs if c[1].startswith("maxwell")] + [("helmholtz", "maxwell.electric_field", "T2", ("RWG", 0, {"include_boundary_dofs": True}), 1)]
         for ci, (mode, op, mesh, spc, order) in enumerate(pot_cfgs):
             t0 = time.time()
             ABS.reset()
             fa.clear_fmm_cache()
             fam = fams[mode]
+            if op.startswith("maxwell"):
+                fam = GradFamily("Gq", MODES[mode][2][0])
+            fam_by_mode[mode] = fam
             g = W.symgrid(mesh, tag="q%d" % ci)
             W.set_orders(order, 1)
             b.GLOBAL_PARAMETERS.fmm.dense_evaluation = bool(ci % 2)
@@ -274,12 +317,13 @@ def run(ctx):
                 sp = b.function_space(g, spc[0], spc[1], **spc[2])
                 c = sym_array("c%d" % ci, (sp.global_dof_count,))
                 gf = b.GridFunction(sp, coefficients=c)
-                pd = getattr(getattr(b.operators.potential, mode), op)(sp, pts, *args).evaluate(gf)
-                pf = getattr(getattr(b.operators.potential, mode), op)(sp, pts, *args, assembler="fmm").evaluate(gf)
+                potf = getattr(b.operators.potential.maxwell, op.split(".")[1]) if op.startswith("maxwell") else getattr(getattr(b.operators.potential, mode), op)
+                pd = potf(sp, pts, *args).evaluate(gf)
+                pf = potf(sp, pts, *args, assembler="fmm").evaluate(gf)
             params = {"mode": mode, "op": op, "mesh": mesh, "space": list(spc), "order": order}
             for idx, f in W.entries_eq(np.asarray(pf, dtype=object).ravel(), np.asarray(pd, dtype=object).ravel()):
                 ctx.prove("pot%d/%s/%s/%d" % (ci, mode, op, idx[0]), f, [], family="fmm_pot", params=params, abs_cons=False, group="pot%d-%s-%s" % (ci, mode, op))
-            if ctx.thorough or ci == 1:
+            if ctx.thorough or ci in (1, 2):
                 ctx.concrete("fmm_pot/%d" % ci, "fmm_pot", params)
             ctx.log("pot%d %s %s: %.1fs" % (ci, mode, op, time.time() - t0))
     finally:
@@ -322,7 +366,15 @@ def run(ctx):
                 hyps = list(hyp) + list(pc)
                 dlr = -(h[1] * ny[0] + h[2] * ny[1] + h[3] * ny[2])
                 adlr = h[1] * nx[0] + h[2] * nx[1] + h[3] * nx[2]
-                for nm, a, c in (("sl", sl, h[0]), ("dl", dl, dlr), ("adl", adl, adlr)):
+                rels = [("sl", sl, h[0]), ("dl", dl, dlr), ("adl", adl, adlr)]
+                if mode == "helmholtz":
+                    # the relation GradFamily is built on: grad_x G = G (ik r - 1)/r^2 (x - y) for the real helper kernel
+                    df = [x[i] - y[i] for i in range(3)]
+                    rr = (df[0] * df[0] + df[1] * df[1] + df[2] * df[2]).sqrt()
+                    kk = SC(kp[0], kp[1])
+                    for i in range(3):
+                        rels.append(("grad%d" % i, h[1 + i], SC.lift(h[0]) * (SC(ZERO, SR.const(1)) * kk * rr - 1) / (rr * rr) * df[i]))
+                for nm, a, c in rels:
                     ar, ai = cterm(a)
                     cr, cim = cterm(c)
                     claim = z3.And(ar == cr, ai == cim)
@@ -373,6 +425,13 @@ def concrete(family, params):
         for kp in {"laplace": [np.zeros(0)], "modified_helmholtz": [np.array([0.8])], "helmholtz": [np.array([1.2, 0.0]), np.array([1.2, 0.5])]}[mode]:
             x, y, nx, ny = rng.rand(3), rng.rand(3) + 2, rng.rand(3), rng.rand(3)
             h = getattr(fh, mode + "_kernel")(x.reshape(3, 1), y.reshape(3, 1), kp, np.dtype("float64"), np.dtype("complex128" if mode == "helmholtz" else "float64"))
+            if nm.startswith("grad"):
+                i = int(nm[4:])
+                r = np.linalg.norm(x - y)
+                a = h[1 + i]
+                c = h[0] * (1j * (kp[0] + 1j * kp[1]) * r - 1) / r**2 * (x - y)[i]
+                worst = max(worst, abs(a - c) / abs(c))
+                continue
             full = {"sl": "single_layer", "dl": "double_layer", "adl": "adjoint_double_layer"}[nm]
             a = getattr(nk, "%s_%s_regular" % (mode, full))(x, y.reshape(3, 1), nx, ny.reshape(3, 1), kp)[0]
             c = {"sl": h[0], "dl": -(h[1:4] @ ny), "adl": h[1:4] @ nx}[nm]
@@ -398,8 +457,8 @@ def concrete(family, params):
         tr, te = params["trial"], params["test"]
         dom = b.function_space(g, tr[0], tr[1], **tr[2])
         dual = b.function_space(g2, te[0], te[1], **te[2])
-        if params["op"] == "electric_field":
-            mk = lambda a: b.operators.boundary.maxwell.electric_field(dom, dom, dual, *args, assembler=a)
+        if params["op"] in ("electric_field", "magnetic_field"):
+            mk = lambda a: getattr(b.operators.boundary.maxwell, params["op"])(dom, dom, dual, *args, assembler=a)
         else:
             mk = lambda a: getattr(getattr(b.operators.boundary, mode), params["op"])(dom, dual, dual, *args, assembler=a)
         Ad = mk("default_nonlocal").weak_form().to_dense()
@@ -419,8 +478,10 @@ def concrete(family, params):
         pts = np.array([[3.0, -2.0], [0.5, 1.0], [2.0, 0.3]])
         c = rng.rand(space.global_dof_count)
         gf = b.GridFunction(space, coefficients=c)
-        pd = getattr(getattr(b.operators.potential, mode), params["op"])(space, pts, *args).evaluate(gf)
-        pf = getattr(getattr(b.operators.potential, mode), params["op"])(space, pts, *args, assembler="fmm").evaluate(gf)
+        op = params["op"]
+        potf = getattr(b.operators.potential.maxwell, op.split(".")[1]) if op.startswith("maxwell") else getattr(getattr(b.operators.potential, mode), op)
+        pd = potf(space, pts, *args).evaluate(gf)
+        pf = potf(space, pts, *args, assembler="fmm").evaluate(gf)
         gap = float(np.max(np.abs(pf - pd)) / np.max(np.abs(pd)))
         return {"gap": gap if gap > 1e-10 else 0.0, "max_rel_diff": gap, "key": "fmm_pot/%s/%s" % (mode, params["op"])}
     raise KeyError(family)
